@@ -79,3 +79,179 @@ theorem civil_roundtrip (n : Nat) :
 
 end Lemmas.C16
 end Miller
+
+namespace Miller
+namespace Lemmas.C16
+open Time
+
+def shift (acc : Nat) (n : Nat) : Nat := if n < 10 then acc * 10 + n else shift acc (n / 10) * 10 + n % 10
+termination_by n
+decreasing_by omega
+
+theorem shift_zero (n : Nat) : shift 0 n = n := by
+  induction n using Nat.strongRecOn with
+  | _ n ih =>
+    unfold shift
+    by_cases h : n < 10
+    · simp [h]
+    · simp only [h, if_false]
+      rw [ih (n / 10) (by omega)]
+      omega
+
+theorem scan_natText (n : Nat) : ∀ (acc : Nat) (seen : Bool) (tail : Bytes),
+    scanNat (natText n ++ tail) acc seen = scanNat tail (shift acc n) true := by
+  induction n using Nat.strongRecOn with
+  | _ n ih =>
+    intro acc seen tail
+    unfold natText shift
+    by_cases h : n < 10
+    · simp only [h, if_true, List.cons_append, List.nil_append, scanNat, digit]
+      have : 48 ≤ 48 + n % 10 ∧ 48 + n % 10 ≤ 57 := by omega
+      simp only [this, and_self, if_true]
+      congr 1
+      omega
+    · simp only [h, if_false, List.append_assoc, List.cons_append, List.nil_append]
+      rw [ih (n / 10) (by omega)]
+      simp only [scanNat, digit]
+      have : 48 ≤ 48 + n % 10 ∧ 48 + n % 10 ≤ 57 := by omega
+      simp only [this, and_self, if_true]
+      congr 1
+      omega
+
+theorem natText_head (n : Nat) : ∃ c cs, natText n = c :: cs ∧ 48 ≤ c ∧ c ≤ 57 := by
+  induction n using Nat.strongRecOn with
+  | _ n ih =>
+    unfold natText
+    by_cases h : n < 10
+    · simp only [h, if_true, digit]
+      exact ⟨_, _, rfl, by omega, by omega⟩
+    · simp only [h, if_false]
+      obtain ⟨c, cs, hc, h1, h2⟩ := ih (n / 10) (by omega)
+      rw [hc]
+      exact ⟨c, cs ++ [digit n], rfl, h1, h2⟩
+
+def unitMul (u : Nat) : Option Nat :=
+  if u == 100 then some 86400 else if u == 104 then some 3600 else if u == 109 then some 60 else if u == 115 then some 1 else none
+
+theorem unit_not_digit (unit k : Nat) (hu : unitMul unit = some k) : ¬ (48 ≤ unit ∧ unit ≤ 57) := by
+  unfold unitMul at hu
+  intro hd
+  by_cases h1 : unit = 100 <;> by_cases h2 : unit = 104 <;> by_cases h3 : unit = 109 <;> by_cases h4 : unit = 115 <;> simp_all <;> omega
+
+theorem scan_pad2 (n acc : Nat) (seen : Bool) (tail : Bytes) (hn : n < 100) :
+    scanNat (pad2 n ++ tail) acc seen = scanNat tail (acc * 100 + n) true := by
+  simp only [pad2, List.cons_append, List.nil_append, scanNat, digit]
+  have : 48 ≤ 48 + n / 10 % 10 ∧ 48 + n / 10 % 10 ≤ 57 ∧ 48 ≤ 48 + n % 10 ∧ 48 + n % 10 ≤ 57 := by omega
+  simp only [this, and_self, if_true]
+  congr 1
+  omega
+
+theorem group_of_scan (fuel unit k acc n : Nat) (txt tail : Bytes) (hne : txt.isEmpty = false)
+    (hs : scanNat (txt ++ unit :: tail) 0 false = scanNat (unit :: tail) n true)
+    (hu : unitMul unit = some k) :
+    dhmsGroups (fuel + 1) (txt ++ unit :: tail) acc = dhmsGroups fuel tail (acc + n * k) := by
+  have hnd := unit_not_digit unit k hu
+  have hne' : (txt ++ unit :: tail).isEmpty = false := by
+    cases txt with
+    | nil => simp at hne
+    | cons c cs => rfl
+  conv => lhs; rw [dhmsGroups]
+  simp only [hne', Bool.false_eq_true, if_false]
+  rw [hs]
+  simp only [scanNat, hnd, if_false, if_true]
+  unfold unitMul at hu
+  simp only [hu]
+
+theorem group_natText (fuel n unit k acc : Nat) (tail : Bytes) (hu : unitMul unit = some k) :
+    dhmsGroups (fuel + 1) (natText n ++ unit :: tail) acc = dhmsGroups fuel tail (acc + n * k) := by
+  obtain ⟨c, cs, hc, _, _⟩ := natText_head n
+  apply group_of_scan fuel unit k acc n (natText n) tail (by rw [hc]; rfl) _ hu
+  rw [scan_natText, shift_zero]
+
+theorem group_pad2 (fuel n unit k acc : Nat) (tail : Bytes) (hn : n < 100) (hu : unitMul unit = some k) :
+    dhmsGroups (fuel + 1) (pad2 n ++ unit :: tail) acc = dhmsGroups fuel tail (acc + n * k) := by
+  apply group_of_scan fuel unit k acc n (pad2 n) tail rfl _ hu
+  rw [scan_pad2 n 0 false _ hn]
+  simp
+
+theorem groups_end (fuel acc : Nat) : dhmsGroups (fuel + 1) [] acc = some acc := by
+  unfold dhmsGroups; simp
+
+theorem groups_of_abs (u : Nat) :
+    dhmsGroups ((sec2dhms (u : Int)).length + 1) (sec2dhms (u : Int)) 0 = some u := by
+  have hnn : ¬ ((u : Int) < 0) := by omega
+  have habs : (u : Int).natAbs = u := Int.natAbs_natCast u
+  have hd : unitMul 100 = some 86400 := rfl
+  have hh : unitMul 104 = some 3600 := rfl
+  have hm : unitMul 109 = some 60 := rfl
+  have hs : unitMul 115 = some 1 := rfl
+  unfold sec2dhms
+  simp only [habs, hnn, if_false, List.nil_append]
+  by_cases c1 : (u / 86400 != 0) = true
+  · simp only [c1, if_true]
+    obtain ⟨c, cs, hc, _, _⟩ := natText_head (u / 86400)
+    generalize hL : (natText (u / 86400) ++ [100] ++ pad2 (u / 3600 % 24) ++ [104] ++ pad2 (u / 60 % 60) ++ [109] ++ pad2 (u % 60) ++ [115]).length = L
+    have hLge : 4 ≤ L := by rw [← hL, hc]; simp [pad2]
+    obtain ⟨f, rfl⟩ : ∃ f, L = f + 4 := ⟨L - 4, by omega⟩
+    simp only [List.append_assoc, List.cons_append, List.nil_append]
+    rw [group_natText (f + 4) _ 100 86400 0 _ hd, group_pad2 (f + 3) _ 104 3600 _ _ (by omega) hh,
+      group_pad2 (f + 2) _ 109 60 _ _ (by omega) hm, group_pad2 (f + 1) _ 115 1 _ _ (by omega) hs, groups_end]
+    simp only [Option.some.injEq]; omega
+  · simp only [c1, Bool.false_eq_true, if_false]
+    have d0 : u / 86400 = 0 := by simpa using c1
+    by_cases c2 : (u / 3600 % 24 != 0) = true
+    · simp only [c2, if_true]
+      obtain ⟨c, cs, hc, _, _⟩ := natText_head (u / 3600 % 24)
+      generalize hL : (natText (u / 3600 % 24) ++ [104] ++ pad2 (u / 60 % 60) ++ [109] ++ pad2 (u % 60) ++ [115]).length = L
+      have hLge : 3 ≤ L := by rw [← hL, hc]; simp [pad2]
+      obtain ⟨f, rfl⟩ : ∃ f, L = f + 3 := ⟨L - 3, by omega⟩
+      simp only [List.append_assoc, List.cons_append, List.nil_append]
+      rw [group_natText (f + 3) _ 104 3600 0 _ hh, group_pad2 (f + 2) _ 109 60 _ _ (by omega) hm,
+        group_pad2 (f + 1) _ 115 1 _ _ (by omega) hs, groups_end]
+      simp only [Option.some.injEq]; omega
+    · simp only [c2, Bool.false_eq_true, if_false]
+      have h0 : u / 3600 % 24 = 0 := by simpa using c2
+      by_cases c3 : (u / 60 % 60 != 0) = true
+      · simp only [c3, if_true]
+        obtain ⟨c, cs, hc, _, _⟩ := natText_head (u / 60 % 60)
+        generalize hL : (natText (u / 60 % 60) ++ [109] ++ pad2 (u % 60) ++ [115]).length = L
+        have hLge : 2 ≤ L := by rw [← hL, hc]; simp [pad2]
+        obtain ⟨f, rfl⟩ : ∃ f, L = f + 2 := ⟨L - 2, by omega⟩
+        simp only [List.append_assoc, List.cons_append, List.nil_append]
+        rw [group_natText (f + 2) _ 109 60 0 _ hm, group_pad2 (f + 1) _ 115 1 _ _ (by omega) hs, groups_end]
+        simp only [Option.some.injEq]; omega
+      · simp only [c3, Bool.false_eq_true, if_false]
+        have m0 : u / 60 % 60 = 0 := by simpa using c3
+        obtain ⟨c, cs, hc, _, _⟩ := natText_head (u % 60)
+        generalize hL : (natText (u % 60) ++ [115]).length = L
+        have hLge : 1 ≤ L := by rw [← hL, hc]; simp
+        obtain ⟨f, rfl⟩ : ∃ f, L = f + 1 := ⟨L - 1, by omega⟩
+        rw [group_natText (f + 1) _ 115 1 0 [] hs, groups_end]
+        simp only [Option.some.injEq]; omega
+
+theorem sec2dhms_neg (t : Int) (h : t < 0) : sec2dhms t = 45 :: sec2dhms (t.natAbs : Int) := by
+  have hnn : ¬ (((t.natAbs : Nat) : Int) < 0) := by omega
+  have habs : ((t.natAbs : Nat) : Int).natAbs = t.natAbs := Int.natAbs_natCast _
+  unfold sec2dhms
+  simp only [h, if_true, hnn, if_false, habs, List.nil_append]
+  split <;> (try split) <;> (try split) <;> simp
+
+theorem sec2dhms_nonneg_head (u : Nat) : ∃ c cs, sec2dhms (u : Int) = c :: cs ∧ 48 ≤ c ∧ c ≤ 57 := by
+  have hnn : ¬ ((u : Int) < 0) := by omega
+  unfold sec2dhms
+  simp only [hnn, if_false, List.nil_append]
+  split
+  · obtain ⟨c, cs, hc, h1, h2⟩ := natText_head ((u : Int).natAbs / 86400)
+    rw [hc]; exact ⟨c, _, rfl, h1, h2⟩
+  · split
+    · obtain ⟨c, cs, hc, h1, h2⟩ := natText_head ((u : Int).natAbs / 3600 % 24)
+      rw [hc]; exact ⟨c, _, rfl, h1, h2⟩
+    · split
+      · obtain ⟨c, cs, hc, h1, h2⟩ := natText_head ((u : Int).natAbs / 60 % 60)
+        rw [hc]; exact ⟨c, _, rfl, h1, h2⟩
+      · obtain ⟨c, cs, hc, h1, h2⟩ := natText_head ((u : Int).natAbs % 60)
+        rw [hc]; exact ⟨c, _, rfl, h1, h2⟩
+
+
+end Lemmas.C16
+end Miller
